@@ -93,6 +93,9 @@ struct Step {
   end: RunEnd,
   obs: Value,
   summary: ReportSummary,
+  /// specifiers reachable from the graph's roots and configured imports by
+  /// following the dependencies of module entries (error entries end a path)
+  reach: std::collections::BTreeSet<String>,
 }
 
 pub fn run_case(tape: &mut Tape, _tier: Tier, _p: &CaseParams) -> CaseOutcome {
@@ -277,11 +280,19 @@ pub fn run_case(tape: &mut Tape, _tier: Tier, _p: &CaseParams) -> CaseOutcome {
         json!({"abnormal_end": format!("{:?}", report.end)})
       };
       let _ = name;
+      let reach = if report.end == RunEnd::Done {
+        crate::checks::c17::reachable_all(&crate::shape::shape_of(
+          &session.graph,
+        ))
+      } else {
+        Default::default()
+      };
       (
         Step {
           end: report.end.clone(),
           obs,
           summary: summarise(&report, false),
+          reach,
         },
         tape,
       )
@@ -554,7 +565,16 @@ pub fn run_case(tape: &mut Tape, _tier: Tier, _p: &CaseParams) -> CaseOutcome {
       out.count("edit_target_not_in_graph", 1);
       return out;
     }
+    let sreach = &steps[np + 3].1.reach;
     for (k, v) in sslots {
+      if !sreach.contains(k) {
+        // an entry of the from-scratch graph that nothing reaches (its only
+        // importer became an error entry after its dependencies were
+        // loaded - the C01 finding): not "reachable from the roots in the
+        // new sources"
+        out.count("scratch_orphan_ignored", 1);
+        continue;
+      }
       let rv = rslots.get(k);
       let same_slot = rv == Some(v);
       let same_module = scratch["modules"].get(k) == reloaded["modules"].get(k);
